@@ -254,3 +254,56 @@ static void _skip_bytes(binson_parser *parser, size_t size)
     {'name': 'write_copies_one_less', 'edits': [(W, "memmove(&writer->buffer[writer->buffer_used], data->bptr, data->bsize);", "memmove(&writer->buffer[writer->buffer_used], data->bptr, data->bsize > 0 ? data->bsize - 1 : 0);")],
      'expect': {'C04': 'not stored as one contiguous copy'}},
 ]
+
+# ---- C08: scan-mode independence of the per-token validation --------------------------------------------------
+MUTANTS += [
+    {'name': 'c08_order_check_only_when_not_skipping', 'edits': [(P, '''                if (state->current_name.bptr != NULL) {
+                    int r = _cmp_name(&state->current_name, &consumed);''', '''                if (state->current_name.bptr != NULL &&
+                    (CHECKBITMASK(scan_flags, BINSON_ADVANCE_VERIFY) || orig_object_depth == parser->depth)) {
+                    int r = _cmp_name(&state->current_name, &consumed);''')],
+     'expect': {'C08': 'MODE-ERR'}},
+    {'name': 'c08_integer_form_only_in_verify', 'edits': [(P, '''                if (!_parse_integer(&consumed, &state->current_value.integer_value, true)) {
+                    parser->error_flags = BINSON_ERROR_FORMAT;
+                    break;
+                }''', '''                if (!_parse_integer(&consumed, &state->current_value.integer_value, true) &&
+                    CHECKBITMASK(scan_flags, BINSON_ADVANCE_VERIFY | BINSON_ADVANCE_VALUE)) {
+                    parser->error_flags = BINSON_ERROR_FORMAT;
+                    break;
+                }''')],
+     'expect': {'C08': 'MODE-ERR'}},
+    {'name': 'c08_trailing_bytes_only_in_verify', 'edits': [(P, '''                        parser->current_state = &parser->state[0];
+                        if (parser->buffer_used != parser->buffer_size) {''', '''                        parser->current_state = &parser->state[0];
+                        if (CHECKBITMASK(scan_flags, BINSON_ADVANCE_VERIFY) && parser->buffer_used != parser->buffer_size) {''')],
+     'expect': {'C08': 'MODE-ERR'}},
+    {'name': 'c08_name_not_recorded_when_skipping', 'edits': [(P, '''                state->current_name.bptr = consumed.bptr;
+                state->current_name.bsize = consumed.bsize;
+                state->flags = BINSON_STATE_IN_OBJ_EXPECTING_VALUE;''', '''                if (CHECKBITMASK(scan_flags, BINSON_ADVANCE_VERIFY) || orig_object_depth == parser->depth) {
+                    state->current_name.bptr = consumed.bptr;
+                    state->current_name.bsize = consumed.bsize;
+                }
+                state->flags = BINSON_STATE_IN_OBJ_EXPECTING_VALUE;''')],
+     'expect': {'C08': 'MODE-STATE'}},
+    {'name': 'c08_array_end_state_check_skipped_on_leave', 'edits': [(P, '''                if (!CHECKBITMASK(state->flags, BINSON_STATE_IN_ARRAY)) {
+                    parser->error_flags = BINSON_ERROR_FORMAT;
+                    break;
+                }
+''', '''                if (!CHECKBITMASK(state->flags, BINSON_STATE_IN_ARRAY) &&
+                    !CHECKBITMASK(scan_flags, BINSON_ADVANCE_LEAVE_OBJECT)) {
+                    parser->error_flags = BINSON_ERROR_FORMAT;
+                    break;
+                }
+''')],
+     'expect': {'C08': 'MODE-ERR'}},
+    # silent: the consume decision of OBJECT_BEGIN computed once into a local
+    {'name': 'silent_c08_consume_flag_local', 'edits': [(P, '''                /* Check if we should continue. */
+                if (CHECKBITMASK(scan_flags, BINSON_ADVANCE_VERIFY |
+                                             BINSON_ADVANCE_ENTER_OBJECT |
+                                             BINSON_ADVANCE_VALUE |
+                                             BINSON_ADVANCE_LEAVE_ARRAY |
+                                             BINSON_ADVANCE_LEAVE_OBJECT)) {''', '''                /* Check if we should continue. */
+                ;
+                bool take = (scan_flags & (BINSON_ADVANCE_VERIFY | BINSON_ADVANCE_ENTER_OBJECT | BINSON_ADVANCE_VALUE)) != 0;
+                take = take || (scan_flags & (BINSON_ADVANCE_LEAVE_ARRAY | BINSON_ADVANCE_LEAVE_OBJECT)) != 0;
+                if (take) {''')],
+     'expect': {'C08': None}},
+]
